@@ -64,8 +64,14 @@ class Ctx:
         e["JAVA_TOOL_OPTIONS"] = jto
         if env:
             e.update(env)
-        cmd = ["tlc", "-workers", str(workers), "-noGenerateSpecTE", "-metadir", os.path.join(d, "meta"),
-               "-config", cfg] + list(extra) + [module]
+        # java is invoked directly (same jars as the `tlc' wrapper) because the
+        # main thread only gets a large stack from a command-line -Xss
+        cmd = ["java", "-XX:+UseParallelGC", "-Xss1g", "-Djava.io.tmpdir=%s/tmp" % d]
+        if deque:
+            cmd.append("-Dtlc2.tool.queue.IStateQueue=StateDeque")
+        cmd += ["-cp", "/opt/veriftools/tla/tla2tools.jar:/opt/veriftools/tla/CommunityModules-deps.jar",
+                "tlc2.TLC", "-workers", str(workers), "-noGenerateSpecTE", "-metadir", os.path.join(d, "meta"),
+                "-config", cfg] + list(extra) + [module]
         t0 = time.time()
         try:
             p = subprocess.run(cmd, cwd=d, env=e, capture_output=True, text=True, timeout=timeout)
